@@ -146,10 +146,19 @@ def eval_graphs(arg):
                 idx = TaskIndex(pathlib.Path(root))
                 got = None
                 try:
-                    idx.load_transitive_closure(TaskIdentifier.from_str(target))
+                    with common.cpu_budget(3):
+                        idx.load_transitive_closure(TaskIdentifier.from_str(target))
                 except ConductorError as ex:
                     got = KIND.get(type(ex).__name__, "other:" + type(ex).__name__)
                     ctx_ok = ex.file_context is not None
+                except common.CpuBudgetExceeded as ex:
+                    got = "nontermination"
+                    out["violations"].append({"key": "C14:validation-does-not-terminate", "msg": "load_transitive_closure(%s) on a %d-task graph (faults: %s) was still running after 3 s of CPU time; deps=%s" % (target, len(deps), sorted(app), deps),
+                                              "witness": {"engine": "E5", "graph": graph, "target": target, "applicable": sorted(app), "got": got}})
+                    out["sig"] = common.short_hash(sigs)
+                    out["sets"]["graphs"] = sigs
+                    out["violations"] = out["violations"][:3]
+                    return out  # one witness per chunk is enough; every further one would cost CPU seconds
                 except Exception as ex:
                     got = "crash:" + repr(ex)
                 out["reach"]["c14_closure_loads"] = out["reach"].get("c14_closure_loads", 0) + 1
@@ -167,10 +176,13 @@ def eval_graphs(arg):
                 idx = TaskIndex(pathlib.Path(root))
                 got = None
                 try:
-                    for rel in sorted({pathlib.Path(p, "COND") for p, _ in graph["nodes"]}):
-                        idx.load_all_tasks_in_cond_file(rel)
-                    roots = idx.validate_all_loaded_tasks()
+                    with common.cpu_budget(3):
+                        for rel in sorted({pathlib.Path(p, "COND") for p, _ in graph["nodes"]}):
+                            idx.load_all_tasks_in_cond_file(rel)
+                        roots = idx.validate_all_loaded_tasks()
                     got = ("roots", {str(r) for r in roots})
+                except common.CpuBudgetExceeded:
+                    got = ("crash", "does not terminate (10 s CPU)")
                 except ConductorError as ex:
                     got = ("error", KIND.get(type(ex).__name__, "other:" + type(ex).__name__))
                 except Exception as ex:
@@ -210,8 +222,12 @@ def cli_cases(arg):
                 for check in (True, False):
                     if not app and not check:
                         continue
-                    r = cli.run_cli(["run", target] + (["--check"] if check else []), root, sc.root, timeout=90, mode="exec" if (gi % 7 == 0 and check) else "fast")
+                    r = cli.run_cli(["run", target] + (["--check"] if check else []), root, sc.root, timeout=30, mode="exec" if (gi % 7 == 0 and check) else "fast")
                     out["reach"]["c14_cli_runs"] = out["reach"].get("c14_cli_runs", 0) + 1
+                    if r["timed_out"]:
+                        # wall-clock watchdog: never a verdict; stop this chunk (the in-process loads decide with a CPU-time budget)
+                        out["inconclusive"].append({"why": "cond run did not return within the watchdog", "detail": cli.brief(r, 200)})
+                        return out
                     W = {"engine": "cli", "graph": graph, "target": target, "applicable": sorted(app), "result": cli.brief(r)}
                     if "Traceback" in r.err:
                         out["violations"].append({"key": "C14:cli-traceback", "msg": "cond run %s%s printed a traceback: %s" % (target, " --check" if check else "", r.err[-500:]), "witness": W})
